@@ -28,7 +28,8 @@ RULE = ("outlines with placeholders in name, step names, doc-strings, step-table
         "rendered text + schema + history.")
 ASSUMPTIONS = [
     "cell values contain no '<' or '>' (sequential replacement would then be order dependent -- outside the statement)",
-    "tags and tag-placeholder values come from the tag-safe alphabet (Tag.make_name normalises other characters by design)",
+    "values rendered INTO a tag through a placeholder come from the tag-safe alphabet (Tag.make_name normalises other characters "
+    "by design); plain tags without placeholder may consist of any characters and are expected unchanged",
     "the reserved placeholders <row.id>, <row.index>, <examples.name>, <examples.index> are not used inside texts",
     "expectation = plain textual substitution per row (15 lines in this module, shares no code with behave)",
 ]
@@ -79,7 +80,9 @@ def gen_outline(rng):
     tags = []
     for _ in range(rng.randint(0, 3)):
         tags.append(rng.choice(["plain", "t.<%s>" % tagcol, "<%s>" % tagcol, "w-<%s>-z" % tagcol, "k=v",
-                                "r<row.index>", "x<examples.index>", "id.<row.id>"]))
+                                "r<row.index>", "x<examples.index>", "id.<row.id>",
+                                # plain tags are taken over as written, whatever characters they are made of
+                                "bug#42", "c#", "50%", "it's", "a/b", "q?", "x+y"]))
     examples = []
     for ei in range(rng.randint(0, 3)):
         order = cols[:]
